@@ -151,6 +151,9 @@ func (c *Ctx) reachableStop(roots []*ssa.Function, withBuiltins bool, stopBelow 
 			push(a)
 		}
 		if fMod {
+			for _, g := range c.P.ModuleIfaceCallees(f) {
+				push(g)
+			}
 			for _, ci := range callsIn(f) {
 				callee := ci.Common().StaticCallee()
 				if callee != nil && fnInModule(callee) {
